@@ -90,6 +90,8 @@ def do_run(name, checks, tier, seed):
         env['VERIF_REPO'] = scratch
       r = sh([os.path.join(V, 'check'), c, '--tier', tier, '--no-evidence'], cwd=V, env=env, timeout=3600)
       lines = r.stdout.strip().splitlines()
+      if r.returncode == 1 and not any(l.startswith('VIOLATION property=') for l in lines):
+        r.returncode = 3          # the check itself crashed: not a verdict
       res[c] = {'rc': r.returncode, 'first': lines[:2]}
       print('%s vs %s [%s, seed %s]: rc=%d %s' % (name, c, tier, seed, r.returncode,
             'CAUGHT' if r.returncode == 1 else 'missed' if r.returncode == 0 else 'INCONCLUSIVE'))
